@@ -30,6 +30,11 @@ pub mod protocols;
 pub mod test_utils;
 pub mod traits;
 
+/// Verification hook: the de-duplication buffer lives in a private module.
+#[cfg(p2panda_p2panda_verif)]
+#[doc(hidden)]
+pub use dedup::{DEFAULT_BUFFER_CAPACITY, DeduplicationBuffer};
+
 /// Configuration object for instantiating sync sessions.
 #[derive(Clone, Debug)]
 pub struct SessionConfig<T> {
